@@ -72,6 +72,9 @@ def strategy():
 
 
 def signature(spec):
+    """Static root-cause class (for the one listed known finding): failing tasks on the legacy multiprocessing backend."""
+    if spec.get("mode") == "real" and spec.get("backend") == "multiprocessing" and any(c.get("fail") for c in spec["calls"]):
+        return ["real-hang", "multiprocessing"]
     return None
 
 
